@@ -209,32 +209,40 @@ def _compiled_branches(col, rule="C20.R4"):
 
 
 def _path_signatures(sx, targets, limit=4000):
-    """decision signatures of the acyclic normal paths ENTRY -> one of `targets`: frozenset of (test term, outcome)"""
+    """decision signatures of the acyclic normal paths ENTRY -> one of `targets`: frozenset of (test term, outcome).  Paths are walked on
+    the flag-refined graph: a test of a local flag whose value the path has fixed (`done = helper(); if done: return`) is no decision"""
     cfg = sx.cfg
+    R = cfg.refined
     targets = set(targets)
     out = set()
     n_paths = 0
-    stack = [(cfg.ENTRY, frozenset(), frozenset([cfg.ENTRY]))]
+    start = (cfg.ENTRY, tuple(None for _ in R.flags))
+    stack = [(start, frozenset(), frozenset([cfg.ENTRY]))]
     while stack:
-        x, sig, seen = stack.pop()
+        state, sig, seen = stack.pop()
+        x = state[0]
         if x in targets:
             out.add(sig)
             continue
-        for y in cfg.g.successors(x):
-            if y in seen or cfg.g[x][y].get("kind") == "x":
+        succs = [(st2, k) for st2, k in R._step(state) if k != "x"]
+        branch_succs = [st2 for st2, _k in succs if cfg.nodes[st2[0]].kind in ("T", "F") and cfg.nodes[st2[0]].of == x]
+        decided = cfg.nodes[x].kind == "test" and len(branch_succs) == 1
+        for st2, _k in succs:
+            y = st2[0]
+            if y in seen:
                 continue
             n_paths += 1
             if n_paths > limit:
                 raise AnalysisError(f"{sx.cx.qual}: too many paths for a path-sensitive comparison")
             nd = cfg.nodes[y]
             sg = sig
-            if nd.kind in ("T", "F") and nd.of is not None and cfg.nodes[nd.of].kind == "test":
+            if nd.kind in ("T", "F") and nd.of is not None and cfg.nodes[nd.of].kind == "test" and not decided:
                 ct = S.norm_cond(True, sx.sym.of(cfg.nodes[nd.of].ast, nd.of))
                 kind = nd.kind
                 if ct[:1] == ("uop",) and ct[1] == "not":     # `if not X` on its T branch is X on its F branch
                     ct, kind = ct[2], ("F" if kind == "T" else "T")
                 sg = sig | {(S.show(ct, False), kind)}
-            stack.append((y, sg, seen | {y}))
+            stack.append((st2, sg, seen | {y}))
     return out
 
 
